@@ -312,9 +312,15 @@ def record(td, rng, kinds, rid, notes_text=None, max_probes=60):
                 t0 = safe(lambda: eng.time_at(beat_of(p), tag_enum(tg)))
                 if t0 is None:
                     return rec
-                t = float(Fraction(t0) + Fraction(Decimal(v)) / 2)
-                for tag in (0, None, 6):
-                    asks.append((t, tag, {"k": "beatsym", "b0": p, "tag0": tg, "half": half, "idx": idx + 1}))
+                import math
+                end = float(t0) + float(Decimal(v))          # the engine's own float for the end of this pause
+                inside = [float(Fraction(t0) + Fraction(Decimal(v)) / 2)]
+                if math.nextafter(float(t0), math.inf) < end:
+                    # one float step after the start / before the end: still STRICTLY inside the pause
+                    inside += [math.nextafter(float(t0), math.inf), math.nextafter(end, -math.inf)]
+                for t in inside:
+                    for tag in (0, None, 6):
+                        asks.append((t, tag, {"k": "beatsym", "b0": p, "tag0": tg, "half": half, "idx": idx + 1}))
         if rng.random() < 0.5:
             rng.shuffle(asks)
             asks += rng.sample(asks, min(len(asks), 15))
